@@ -88,6 +88,8 @@ def run_case(case: Dict[str, Any], ctx: Any) -> core.CaseResult:
                 continue
             if _judge_rank(r, m, ld, cg, res):
                 nontrivial = True
+        if not res.violations:
+            _judge_stack_queries(models, ld, cg, res, core.rng("c13q", len(case["files"]), sum(len(x) for x in ld.kept.values())))
         if case.get("from_df"):
             # the same call graph built from one rank's frame alone (CallGraph.from_dataframe, with and without the table)
             r = sorted(models)[-1]
@@ -112,6 +114,49 @@ def run_case(case: Dict[str, Any], ctx: Any) -> core.CaseResult:
     finally:
         ctx.scratch.drop(d)
     return res
+
+
+def _judge_stack_queries(models, ld, cg, res, rnd) -> None:  # noqa: ANN001
+    """get_stack_of_node(idx, rank): the node, its descendants and its ancestors - of THAT rank.  The ranks are asked in descending and
+    then ascending order (an object answers for whichever rank the caller names, whatever it was asked before)."""
+    ranks = [r for r in sorted(models) if ld.kept[r]]
+    for r in sorted(ranks, reverse=True) + ranks:
+        df = cg.trace_data.get_trace(r)
+        par = {int(i): int(p) for i, p in zip(df["index"].tolist(), df["parent"].tolist())}
+        stream = {int(i): int(s_) for i, s_ in zip(df["index"].tolist(), df["stream"].tolist())}
+        kids: Dict[int, List[int]] = {}
+        for i, p in par.items():
+            kids.setdefault(p, []).append(i)
+        hosts = [i for i in par if stream[i] == -1 and par[i] >= -1 and (kids.get(i) or par[i] >= 0)]
+        for idx in rnd.sample(hosts, min(3, len(hosts))):
+            ok, out = drv.guard(res, "get_stack_of_node", cg.get_stack_of_node, idx, r)
+            if not ok:
+                res.violations[-1].witness.update(rank=r, index=idx)
+                return
+            exp = {idx}
+            stack = [idx]
+            while stack:
+                x = stack.pop()
+                for c in kids.get(x, []):
+                    if c not in exp:
+                        exp.add(c)
+                        stack.append(c)
+            x = par[idx]
+            while x >= 0 and x not in exp:
+                exp.add(x)
+                x = par.get(x, -1)
+            got = [int(i) for i in out["index"].tolist()]
+            res.counters["stack_queries"] += 1
+            if len(ranks) > 1:
+                res.counters["stack_queries_on_multi_rank_graphs"] += 1
+            if set(got) != exp or len(got) != len(set(got)):
+                res.bad("stack-of-node", f"rank {r}: get_stack_of_node({idx}, rank={r}) returned events {sorted(got)[:12]}, the node with its descendants "
+                        f"and ancestors is {sorted(exp)[:12]}")
+                return
+            wrong = [i for i, ts_, nm in zip(got, out["ts"].tolist(), out["name"].tolist()) if (ts_, nm) != (df.at[i, "ts"], df.at[i, "name"])]
+            if wrong:
+                res.bad("stack-of-node-rank", f"rank {r}: get_stack_of_node({idx}, rank={r}) returned rows of another rank for events {wrong[:6]}")
+                return
 
 
 def _judge_rank(r, m, ld, cg, res) -> bool:  # noqa: ANN001
